@@ -69,6 +69,7 @@ theorem frRel_extend (env : List (String × Core.Val)) (vars : List (String × N
 theorem feed_run (cfg : Core.Cfg) : ∀ (ds : List Core.Decl), declsOK ds = true → ∀ (cf : Nat) (cur root : Scope),
     RootOK cur → feedDecls cf [] cur (ofDecls ds) = .ok root →
     RootOK root ∧ cur.cells.length ≤ root.cells.length ∧ ∃ D, root.decls = cur.decls ++ D ∧
+    (D = [] ∨ ∃ c e D', D = .value c e :: D') ∧
     ∀ (fuel : Nat) (fr : Core.Frame) (rfr : RFrame) (st : St) (args : List CVal), fr.self = none →
       FrRel fr.env cur.vars rfr →
       (∀ k, cur.cells.length ≤ k → k < root.cells.length → rfr.cells[k]? = some (.owned .uninit)) →
@@ -82,7 +83,7 @@ theorem feed_run (cfg : Core.Cfg) : ∀ (ds : List Core.Decl), declsOK ds = true
     | succ c =>
       simp only [ofDecls, feedDecls, Except.ok.injEq] at h
       subst h
-      refine ⟨rok, Nat.le_refl _, [], by simp, ?_⟩
+      refine ⟨rok, Nat.le_refl _, [], by simp, Or.inl rfl, ?_⟩
       intro fuel fr rfr st args hs hrel _
       cases fuel with
       | zero => simp [DeclRel, Core.evalDecls, runDecls, cr]
@@ -113,9 +114,9 @@ theorem feed_run (cfg : Core.Cfg) : ∀ (ds : List Core.Decl), declsOK ds = true
             · cases h
             · rename_i cur3 hadd
               obtain ⟨rok3, hcells3, hvars3, hdecls3⟩ := rootOK_addVariable _ _ rok x _ hadd
-              obtain ⟨rokR, hlen, D', hD', hsim⟩ := ih hok.2 c cur3 root rok3 h
+              obtain ⟨rokR, hlen, D', hD', -, hsim⟩ := ih hok.2 c cur3 root rok3 h
               have hlen3 : cur3.cells.length = cur2.cells.length + 1 := by rw [hcells3]; simp
-              refine ⟨rokR, by omega, .value cur2.cells.length (cx cur2.vars e) :: D', by rw [hD', hdecls3]; simp, ?_⟩
+              refine ⟨rokR, by omega, .value cur2.cells.length (cx cur2.vars e) :: D', by rw [hD', hdecls3]; simp, Or.inr ⟨_, _, _, rfl⟩, ?_⟩
               intro fuel fr rfr st args hs hrel hun
               cases fuel with
               | zero => simp [DeclRel, Core.evalDecls, runDecls, cr]
@@ -169,10 +170,12 @@ theorem compile_correct_program (cfg : Core.Cfg) (ds : List Core.Decl) (hok : de
     DeclRel root.vars (Core.runProgram fuel cfg ds) (runRoot fuel cfg root) := by
   have rok0 : RootOK ({} : Scope) :=
     ⟨rfl, rfl, rfl, by intro x k h; simp [Scope.lookup] at h, by intro c hc; simp at hc⟩
-  obtain ⟨rokR, -, D, hD, hsim⟩ := feed_run cfg ds hok cf {} root rok0 hc
+  obtain ⟨rokR, -, D, hD, hshape, hsim⟩ := feed_run cfg ds hok cf {} root rok0 hc
   simp only [List.nil_append] at hD
-  simp only [runRoot, fromSpecs_allVar root.cells rokR.allVar, fromTemplate, Tmpl.parentId, Tmpl.cells, Tmpl.decls,
-    Core.runProgram, map_const_replicate, initCells_uninit]
+  have hrp : ∀ fr0 : RFrame, runParams fr0 root.decls [] = .ok (fr0, root.decls) := by
+    intro fr0
+    rw [hD]
+    rcases hshape with rfl | ⟨c, e, D', rfl⟩ <;> simp [runParams]
   have fin : DeclRel root.vars (Core.evalDecls fuel cfg { env := [], self := none, height := 0 } ds { })
       (runDecls fuel cfg
         (RFrame.mk (List.replicate root.cells.length (TCell.owned ECell.uninit)) 0 none
@@ -185,10 +188,12 @@ theorem compile_correct_program (cfg : Core.Cfg) (ds : List Core.Decl) (hok : de
       simp only [RFrame.cells]
       rw [List.getElem?_replicate]
       simp [hk]
+  simp only [runRoot, fromSpecs_allVar root.cells rokR.allVar, fromTemplate, initFrame, Tmpl.parentId, Tmpl.cells,
+    Tmpl.decls, Core.runProgram, map_const_replicate, initCells_uninit]
   cases hl : cfg.depthLimit with
-  | none => simpa using fin
+  | none => simpa [hrp] using fin
   | some l =>
     have : l ≠ 0 := by intro h0; subst h0; exact hdl hl
-    simpa [this] using fin
+    simpa [this, hrp] using fin
 
 end XrayModel.CellRun
